@@ -107,7 +107,7 @@ func cmdManifest() {
 
 func init() {
 	for id, why := range map[string]string{
-		"C02": "pending: rules not built yet", "C03": "pending: rules not built yet",
+		
 		"C04": "pending: rules not built yet", "C05": "pending: rules not built yet", "C06": "pending: rules not built yet",
 		"C07": "pending: rules not built yet", "C09": "pending: rules not built yet",
 		"C10": "pending: rules not built yet", "C11": "pending: rules not built yet", "C12": "pending: rules not built yet",
